@@ -93,4 +93,4 @@ pub fn fast_load_tap<H: Host>(emulator: &mut Emulator<H>) -> Result<()> {
 
 #[cfg(kani)]
 #[path = "/verif/hooks/core/fastload.rs"]
-mod verif_hooks;
+pub(crate) mod verif_hooks;
